@@ -164,6 +164,16 @@ def ndl_promises(x, tname, r):
     if tname in SCALAR_TARGETS and isinstance(x, (list, tuple, set, frozenset)) and len(x) > 1:
         if not (tname == "complex" and isinstance(x, tuple) and len(x) == 2):   # (re, im) pair: nothing is dropped
             return "multi-element-collection-collapsed-to-scalar"
+    # ... nor does one hidden inside one-item wrappers (text targets keep the whole inner collection as text: nothing is dropped)
+    if tname in SCALAR_TARGETS and tname not in ("str", "sub:str", "bytes", "bytearray") and isinstance(x, (list, tuple)) and len(x) == 1:
+        inner = x[0]
+        while isinstance(inner, (list, tuple)) and len(inner) == 1:
+            inner = inner[0]
+        if isinstance(inner, (list, tuple, set, frozenset, dict)) and len(inner) > 1 and not (tname == "complex" and isinstance(inner, tuple) and len(inner) == 2):
+            return "nested-multi-element-collection-collapsed-to-scalar"
+    if tname in ("str", "sub:str") and isinstance(x, (list, tuple)) and len(x) == 1 and isinstance(x[0], (list, tuple)) and len(x[0]) > 1:
+        if not all(str(e) in str(r) for e in x[0]):
+            return "nested-collection-cut-down-in-text"
     if tname == "data" and isinstance(x, (list, tuple)) and len(x) > 1:
         return "multi-element-collection-collapsed-to-one-object"
     if tname in ("int", "sub:int"):
@@ -397,6 +407,10 @@ TABLE = [
     {"t": "enum", "e": "Color", "m": "RED"}, {"t": "enum", "e": "Num", "m": "ONE"}, {"t": "enum", "e": "Plain", "m": "A"}, {"t": "enum", "e": "Plain", "m": "B"},
     {"t": "sub", "b": "int", "v": 1}, {"t": "sub", "b": "str", "v": "1"}, {"t": "sub", "b": "float", "v": F("1.5")},
     {"t": "sub", "b": "list", "v": {"t": "list", "v": [1]}}, {"t": "obj"}, {"t": "cls", "v": "int"},
+    # a one-item wrapper around a collection (the wrapper is unwrapped; what is inside must not be cut down silently)
+    {"t": "list", "v": [{"t": "list", "v": [1, 2]}]}, {"t": "list", "v": [{"t": "list", "v": ["a", "b"]}]}, {"t": "list", "v": [{"t": "list", "v": [1]}]},
+    {"t": "list", "v": [{"t": "list", "v": [{"t": "list", "v": [1, 2]}]}]}, {"t": "tuple", "v": [{"t": "list", "v": ["1.5", "2.5"]}]}, {"t": "list", "v": [{"t": "tuple", "v": [True, False]}]},
+    {"t": "list", "v": [{"t": "set", "v": [1, 2]}]}, {"t": "list", "v": [{"t": "dict", "v": [["a", 1], ["b", 2]]}]},
     # instances of the target data class itself (plain dicts for the other targets), alone and in collections
     {"t": "tgt", "v": [["a", 1], ["b", "x"]]}, {"t": "list", "v": [{"t": "tgt", "v": [["a", 1]]}]},
     {"t": "list", "v": [{"t": "tgt", "v": [["a", 1]]}, {"t": "tgt", "v": [["a", 2], ["b", "y"]]}]},
